@@ -59,7 +59,14 @@ def main():
     res['confirmed'] = confirmed
     # run our checks against it
     res['checks'] = {}
-    if confirmed:
+    iso = os.environ.get('MUTANT_ISO_RESULT')
+    if confirmed and iso:
+        # the check outcome was obtained by tools/mutant_iso.py (scratch worktree of /repo's HEAD with the patch + scratch copy of /verif
+        # whose harness path dependencies point at it); used when several changes are evaluated at once and /repo cannot be shared
+        d = json.load(open(iso))
+        res['checks'][pid] = {kk: d.get(kk) for kk in ('exit', 'caught', 'wall_s', 'tail', 'first_finding')}
+        res['checks'][pid]['via'] = 'tools/mutant_iso.py (isolated copy, /repo untouched)'
+    elif confirmed:
         rc, out = sh('git -C /repo status --porcelain'); assert out.strip() == '', 'repo dirty: ' + out
         rc, out = sh('git -C /repo apply %s' % patch)
         try:
@@ -85,7 +92,7 @@ def main():
     if devdep.exists(): shutil.copy(devdep, dst / 'cargo_dev_dep.diff')
     meta = json.load(open(md / 'meta.json')) if (md / 'meta.json').exists() else {}
     meta.update({'property': pid, 'confirmation': {kk: res[kk] for kk in ('applies', 'demo_passes_on_clean', 'demo_fails_on_mutant', 'suite_passes_with_mutant', 'suite_summary', 'confirmed')},
-                 'what_i_ran': ['git apply patch.diff in a scratch worktree', 'cargo test --workspace --no-fail-fast --offline (with the change)', 'cargo test --offline --test demo (with and without the change)', 'git -C /repo apply patch.diff; ./check <id> --tier quick; git -C /repo checkout -- .'],
+                 'what_i_ran': ['git apply patch.diff in a scratch worktree', 'cargo test --workspace --no-fail-fast --offline (with the change)', 'cargo test --offline --test demo (with and without the change)', ('tools/mutant_iso.py: the same patch on a scratch worktree of /repo HEAD, ./check <id> --tier quick in a scratch copy of /verif bound to it' if iso else 'git -C /repo apply patch.diff; ./check <id> --tier quick; git -C /repo checkout -- .')],
                  'checks': res['checks']})
     (dst / 'meta.json').write_text(json.dumps(meta, indent=1))
     print(json.dumps(res, indent=1))
